@@ -251,6 +251,13 @@ impl Printer {
         }
     }
 
+    /// an expression that is followed by `{`: a trailing `()` would be read together with the
+    /// block as a function literal `() { .. }`, so such an expression is parenthesised
+    fn head(&self, e: &Expr) -> String {
+        let s = self.expr(e);
+        if s.ends_with("()") { format!("({s})") } else { s }
+    }
+
     pub fn stmt(&self, s: &Stmt) -> String {
         match s {
             Stmt::Let(n, v) => format!("{n} := {}", self.stmt(v)),
@@ -259,21 +266,21 @@ impl Printer {
             Stmt::Expr(e) => self.expr(e),
             Stmt::Block(b) => format!("{{ {} }}", self.stmts(b)),
             Stmt::If(c, t, e) => {
-                let mut s = format!("if {} {}", self.expr(c), self.body(t));
+                let mut s = format!("if {} {}", self.head(c), self.body(t));
                 if let Some(e) = e {
                     s.push_str(&format!(" else {}", self.body(e)));
                 }
                 s
             }
             Stmt::IfSet(n, t, x, a, b) => {
-                let mut s = format!("if {n}: {} = {} {}", t.print(), self.expr(x), self.body(a));
+                let mut s = format!("if {n}: {} = {} {}", t.print(), self.head(x), self.body(a));
                 if let Some(b) = b {
                     s.push_str(&format!(" else {}", self.body(b)));
                 }
                 s
             }
             Stmt::Match(x, arms) => {
-                let mut s = format!("match {} {{ ", self.expr(x));
+                let mut s = format!("match {} {{ ", self.head(x));
                 for arm in arms {
                     match arm {
                         Arm::Values(vs, b) => s.push_str(&format!("{} => {}, ", self.list(vs), self.body(b))),
@@ -285,9 +292,9 @@ impl Printer {
                 s
             }
             Stmt::Loop(b) => format!("loop {}", self.body(b)),
-            Stmt::While(c, b) => format!("while {} {}", self.expr(c), self.body(b)),
-            Stmt::WhileSet(n, t, x, b) => format!("while {n}: {} = {} {}", t.print(), self.expr(x), self.body(b)),
-            Stmt::For(n, it, b) => format!("for {n} in {} {}", self.expr(it), self.body(b)),
+            Stmt::While(c, b) => format!("while {} {}", self.head(c), self.body(b)),
+            Stmt::WhileSet(n, t, x, b) => format!("while {n}: {} = {} {}", t.print(), self.head(x), self.body(b)),
+            Stmt::For(n, it, b) => format!("for {n} in {} {}", self.head(it), self.body(b)),
             Stmt::Break => "break".into(),
             Stmt::Continue => "continue".into(),
             Stmt::Return(None) => "return".into(),
